@@ -39,10 +39,8 @@ Theorem C40_same_host_meaning :
   (forall a b, same_host a b -> same_host b a) /\
   (forall a b c, same_host a b -> same_host b c -> same_host a c).
 Proof.
-  repeat split; try apply same_host_v4; try apply same_host_v6; auto.
-  - now apply same_host_v4_mapped.
-  - now apply same_host_sym.
-  - intros; eapply same_host_trans; eauto.
+  split; [exact same_host_v4|]. split; [exact same_host_v6|].
+  split; [exact same_host_v4_mapped|]. split; [exact same_host_sym | exact same_host_trans].
 Qed.
 Print Assumptions C40_same_host_meaning.
 
